@@ -8,7 +8,7 @@ Decided (the whole computation is a finite set of tables):
 `STILL_FURTHER_SPECIALIZABLE` is ignored, as the property says."""
 import re
 from core import enum_matches, select_arms, V, walk, calls, peel, callee_matches, var_name, expr_vars, pat_bindings
-from kit import need_body, has_call, short, mentions_field
+from kit import need_body, has_call, short, mentions_field, result_expr
 
 TERM_TYPES = re.compile(r"chalk_ir::(Ty|Substitution|Lifetime|Const|AliasTy|DynTy|FnPointer|FnSubst|GenericArg|ProjectionTy|OpaqueTy)<")
 IGNORED_FLAGS = {"STILL_FURTHER_SPECIALIZABLE"}
@@ -109,11 +109,25 @@ def own_table(ck, R, body, match, adt_variants, spec, what, default_empty=True):
     return n
 
 
+def through_helper(body, bf):
+    """An arm that only hands its fields to a single-use helper (`TyKind::Dyn(d) => Self::dyn_flags(d, interner)`): continue in the
+    helper's body (spliced by Facts.thir under `inl`), with the bound names renamed to the helper's parameters."""
+    e = peel(result_expr(body))
+    if isinstance(e, dict) and e.get("k") == "call" and isinstance(e.get("inl"), dict):
+        params = [p.get("n") if isinstance(p, dict) else None for p in (e["inl"].get("params") or [])]
+        ren = {}
+        for a, pn in zip(e.get("args", []), params):
+            if var_name(a) and pn:
+                ren[var_name(a)] = pn
+        return e["inl"]["body"], {i: ren.get(n, n) for i, n in (bf or {}).items()}
+    return body, bf
+
+
 def run(ck, facts, tier):
     tk = need_body(ck, facts, "C26.COVERAGE", "chalk_ir::TyKind::compute_flags")
     if not tk:
         return
-    ms = enum_matches(tk.thir, "chalk_ir::TyKind")
+    ms = enum_matches(facts.thir("chalk_ir::TyKind::compute_flags"), "chalk_ir::TyKind")
     if len(ms) != 1:
         ck.violation("C26.COVERAGE", "TyKind::compute_flags:match", tk.where(), "expected one match on TyKind")
         return
@@ -131,7 +145,8 @@ def run(ck, facts, tier):
             continue
         arm = m["arms"][arms[0][0]]
         bf = bound_fields(arm["pat"], v) or {}
-        used, used_fields = flag_sources(arm["body"])
+        abody, bf = through_helper(arm["body"], bf)
+        used, used_fields = flag_sources(abody)
         for idx, fld in enumerate(adt_variant_fields(facts, "chalk_ir::TyKind", v)):
             if not TERM_TYPES.search(fld["ty"]):
                 continue
@@ -146,8 +161,9 @@ def run(ck, facts, tier):
     ck.floor(R, "term-fields", n, 17)
     # Dyn: every WhereClause variant and each term field of its payload
     arm = m["arms"][select_arms(m, V("Dyn"))[0][0]]
-    wm = enum_matches(arm["body"], "chalk_ir::WhereClause")
-    _, dyn_fields = flag_sources(arm["body"])
+    dyn_body, _bf = through_helper(arm["body"], {})
+    wm = enum_matches(dyn_body, "chalk_ir::WhereClause")
+    _, dyn_fields = flag_sources(dyn_body)
     if len(wm) != 1:
         ck.violation(R, "TyKind::Dyn:where-clause-match", tk.where(arm["ln"]), "expected a match over WhereClause in the Dyn arm")
     else:
@@ -262,11 +278,14 @@ def run(ck, facts, tier):
     ck.rule(R, "K2: Substitution::compute_flags ORs the flags of every generic argument (no early exit, no narrowing)")
     sb = need_body(ck, facts, R, "chalk_ir::Substitution::compute_flags")
     if sb:
-        ors = [x for x in walk(sb.thir) if x.get("k") == "assignop" and x["op"] == "BitOrAssign" and has_call(x["r"], "compute_flags")]
-        ors += [x for x in walk(sb.thir) if x.get("k") == "call" and callee_matches(x, "BitOrAssign::bitor_assign") and has_call(x, "compute_flags")]
-        narrowing = [c for c in calls(sb.thir, ("Iterator::take", "Iterator::skip", "Iterator::filter", "Iterator::step_by"))]
-        breaks = [x for x in walk(sb.thir) if x.get("k") == "break" and x.get("e") is None and False]
-        rets = [x for x in walk(sb.thir) if x.get("k") == "return"]
+        sth = facts.thir("chalk_ir::Substitution::compute_flags")          # closures spliced in (`fold(empty, |f, a| f | a.compute_flags())`)
+        ors = [x for x in walk(sth) if x.get("k") == "assignop" and x["op"] == "BitOrAssign" and has_call(x["r"], "compute_flags")]
+        ors += [x for x in walk(sth) if x.get("k") == "call" and callee_matches(x, ("BitOrAssign::bitor_assign", "BitOr::bitor")) and has_call(x, "compute_flags")]
+        ors += [x for x in walk(sth) if x.get("k") == "bin" and x.get("op") == "BitOr" and has_call(x, "compute_flags")]
+        from kit import DROP_ADAPTORS
+        narrowing = [c for c in calls(sth) if str(c.get("fn", "")).split("::")[-1] in DROP_ADAPTORS and "Iterator" in str(c.get("fn", ""))]
+        from kit import user_block
+        rets = [x for x in walk(user_block(sth)) if x.get("k") == "return"]
         if ors and has_call(sb.thir, "iter") and not narrowing and not rets:
             ck.ok(R, "Substitution::compute_flags", "flags |= arg.compute_flags() for every arg")
         else:
